@@ -263,6 +263,7 @@ func normalisingSwitches(w *World) []switchTable {
 
 func runC08(w *World, r *Report) {
 	ctxs := w.ctxTable()
+	phaseTables(w, r, "C08")
 	// ---- 1. alias normalisation ----
 	const ruleAlias = "C08/alias-normalisation"
 	sws := normalisingSwitches(w)
@@ -487,7 +488,7 @@ func runC08(w *World, r *Report) {
 			if counts[kb] > 1 {
 				key = fmt.Sprintf("%s#%d", kb, counts[kb])
 			}
-			if cls, _ := w.baseClass(fa.X); cls == "fresh" {
+			if cls, _ := w.baseClass(fa.X); cls == "fresh" && !w.sharedThroughShallowCopy(fa.X, ins) {
 				r.pass(ruleIso, key, w.instrPos(ins), "through a fresh object")
 			} else {
 				r.fail(ruleIso, key, w.instrPos(ins), "writes an attribute object that may be the one stored in a MetaData entry and shared by every field of that type: the attribute leaks to other fields")
@@ -556,4 +557,83 @@ func runC08(w *World, r *Report) {
 		}
 	}
 	r.assume("generated code can vary with the DSL only through the model; the model visitor is the only producer of the model")
+}
+
+// sharedThroughShallowCopy: p is a pointer read from a member of a local struct (`padded.Padding`) that was initialised by copying a
+// shared object (`padded := *fs`): the copy is fresh, what its pointer members point to is not - unless the member was assigned a
+// fresh object on every path to the use at `at`.
+func (w *World) sharedThroughShallowCopy(p ssa.Value, at ssa.Instruction) bool {
+	ld, ok := stripIdentity(p).(*ssa.UnOp)
+	if !ok || ld.Op != token.MUL {
+		return false
+	}
+	mfa, ok := ld.X.(*ssa.FieldAddr)
+	if !ok {
+		return false
+	}
+	al, ok := mfa.X.(*ssa.Alloc)
+	if !ok || al.Referrers() == nil {
+		return false
+	}
+	if _, isPtr := ld.Type().Underlying().(*types.Pointer); !isPtr {
+		return false
+	}
+	// stores into the local: whole-struct copies and member assignments
+	type st struct {
+		ins   *ssa.Store
+		fresh bool
+	}
+	var whole, member []st
+	for _, ref := range *al.Referrers() {
+		switch x := ref.(type) {
+		case *ssa.Store:
+			if x.Addr == ssa.Value(al) {
+				cls, _ := w.baseClass(x.Val)
+				fresh := cls == "fresh"
+				if l2, ok := stripIdentity(x.Val).(*ssa.UnOp); ok && l2.Op == token.MUL {
+					c2, _ := w.baseClass(l2.X)
+					fresh = c2 == "fresh"
+				}
+				whole = append(whole, st{x, fresh})
+			}
+		case *ssa.FieldAddr:
+			if x.Field != mfa.Field || x.Referrers() == nil {
+				continue
+			}
+			for _, r2 := range *x.Referrers() {
+				if s2, ok := r2.(*ssa.Store); ok && s2.Addr == ssa.Value(x) {
+					cls, _ := w.baseClass(s2.Val)
+					member = append(member, st{s2, cls == "fresh"})
+				}
+			}
+		}
+	}
+	sharedInit := false
+	for _, wst := range whole {
+		if !wst.fresh {
+			sharedInit = true
+		}
+	}
+	if !sharedInit {
+		return false
+	}
+	// a fresh member assignment that dominates the use, with no shared (re)initialisation in between
+	for _, m := range member {
+		if !m.fresh || !instrDominates(m.ins, at) {
+			continue
+		}
+		clean := true
+		for _, o := range append(append([]st(nil), whole...), member...) {
+			if o.ins == m.ins || o.fresh {
+				continue
+			}
+			if instrReaches(m.ins, o.ins) && instrReaches(o.ins, at) {
+				clean = false
+			}
+		}
+		if clean {
+			return false
+		}
+	}
+	return true
 }
